@@ -191,9 +191,16 @@ func verifReplayMain(t *testing.T, hs map[string]func()) {
 		verifLoadTape()
 		cases = []verifCase{{Harness: os.Getenv("VERIF_HARNESS"), Tape: verifTape}}
 	}
+	repeat := 1
+	if s := os.Getenv("VERIF_REPEAT"); s != "" {
+		fmt.Sscanf(s, "%d", &repeat)
+	}
 	for i, c := range cases {
 		fmt.Printf("VERIF-CASE-START %d %s\n", i, c.Harness)
-		st := verifRunCase(i, c, hs)
+		st := "ok"
+		for k := 0; k < repeat && (st == "ok" || st == "assume-false"); k++ {
+			st = verifRunCase(i, c, hs)
+		}
 		fmt.Printf("VERIF-CASE-RESULT %d %s\n", i, st)
 	}
 	fmt.Println("VERIF-REPLAY-DONE")
